@@ -1,0 +1,144 @@
+//! Verification hooks (cargo feature `verif-hooks`, off by default).
+//!
+//! Seams for a deterministic-simulation harness at the two places where this
+//! crate names a concrete transport type:
+//!
+//! * [`TcpStream`] stands in for `tokio::net::TcpStream` in the Ribbit client:
+//!   `connect` asks the installed simulated network first and falls back to
+//!   the real socket when none is installed (or it declines the address).
+//! * [`http_send`] stands in for `reqwest`'s `send()`: the request is built with
+//!   the real `reqwest` builder, and handed to the installed transport (under
+//!   the request time-out) instead of being sent; without a transport it is
+//!   sent for real.
+//!
+//! With the feature on and nothing installed, behaviour is unchanged.
+
+use crate::error::{ProtocolError, Result};
+use futures::future::BoxFuture;
+use std::io;
+use std::pin::Pin;
+use std::sync::{Arc, RwLock};
+use std::task::{Context, Poll};
+use std::time::Duration;
+use tokio::io::{AsyncRead, AsyncWrite, ReadBuf};
+
+/// One end of a simulated byte stream.
+pub trait Duplex: AsyncRead + AsyncWrite + Send + Unpin {}
+impl<T: AsyncRead + AsyncWrite + Send + Unpin> Duplex for T {}
+
+/// A simulated network: returns `None` to let the real socket handle `addr`.
+pub trait SimNet: Send + Sync {
+    /// Open a connection to `addr` ("host:port").
+    fn connect(&self, addr: &str) -> Option<BoxFuture<'static, io::Result<Box<dyn Duplex>>>>;
+}
+
+/// A simulated HTTP transport.
+pub trait HttpTransport: Send + Sync {
+    /// Answer a fully built request.
+    fn send(&self, request: reqwest::Request) -> BoxFuture<'static, Result<reqwest::Response>>;
+}
+
+static NET: RwLock<Option<Arc<dyn SimNet>>> = RwLock::new(None);
+static HTTP: RwLock<Option<Arc<dyn HttpTransport>>> = RwLock::new(None);
+
+/// Install (or remove) the process-wide simulated network.
+pub fn install_net(net: Option<Arc<dyn SimNet>>) {
+    if let Ok(mut slot) = NET.write() {
+        *slot = net;
+    }
+}
+
+/// Install (or remove) the process-wide simulated HTTP transport.
+pub fn install_http(transport: Option<Arc<dyn HttpTransport>>) {
+    if let Ok(mut slot) = HTTP.write() {
+        *slot = transport;
+    }
+}
+
+/// `tokio::net::TcpStream` or one end of a simulated connection.
+pub enum TcpStream {
+    /// A real socket.
+    Real(tokio::net::TcpStream),
+    /// A simulated connection.
+    Sim(Box<dyn Duplex>),
+}
+
+impl TcpStream {
+    /// Connect to `addr`, through the simulated network when one is installed.
+    pub async fn connect(addr: &str) -> io::Result<Self> {
+        let pending = NET
+            .read()
+            .ok()
+            .and_then(|slot| slot.clone())
+            .and_then(|net| net.connect(addr));
+        match pending {
+            Some(connecting) => Ok(Self::Sim(connecting.await?)),
+            None => Ok(Self::Real(tokio::net::TcpStream::connect(addr).await?)),
+        }
+    }
+}
+
+impl AsyncRead for TcpStream {
+    fn poll_read(
+        self: Pin<&mut Self>,
+        cx: &mut Context<'_>,
+        buf: &mut ReadBuf<'_>,
+    ) -> Poll<io::Result<()>> {
+        match self.get_mut() {
+            Self::Real(s) => Pin::new(s).poll_read(cx, buf),
+            Self::Sim(s) => Pin::new(s).poll_read(cx, buf),
+        }
+    }
+}
+
+impl AsyncWrite for TcpStream {
+    fn poll_write(
+        self: Pin<&mut Self>,
+        cx: &mut Context<'_>,
+        buf: &[u8],
+    ) -> Poll<io::Result<usize>> {
+        match self.get_mut() {
+            Self::Real(s) => Pin::new(s).poll_write(cx, buf),
+            Self::Sim(s) => Pin::new(s).poll_write(cx, buf),
+        }
+    }
+
+    fn poll_flush(self: Pin<&mut Self>, cx: &mut Context<'_>) -> Poll<io::Result<()>> {
+        match self.get_mut() {
+            Self::Real(s) => Pin::new(s).poll_flush(cx),
+            Self::Sim(s) => Pin::new(s).poll_flush(cx),
+        }
+    }
+
+    fn poll_shutdown(self: Pin<&mut Self>, cx: &mut Context<'_>) -> Poll<io::Result<()>> {
+        match self.get_mut() {
+            Self::Real(s) => Pin::new(s).poll_shutdown(cx),
+            Self::Sim(s) => Pin::new(s).poll_shutdown(cx),
+        }
+    }
+}
+
+/// `client.get(url)[.timeout(t)].send()`, through the simulated transport when
+/// one is installed. URL parsing and request building stay `reqwest`'s.
+pub async fn http_send(
+    client: &reqwest::Client,
+    url: &str,
+    timeout: Option<Duration>,
+) -> Result<reqwest::Response> {
+    let transport = HTTP.read().ok().and_then(|slot| slot.clone());
+    let mut builder = client.get(url);
+    if let Some(t) = timeout {
+        builder = builder.timeout(t);
+    }
+    let Some(transport) = transport else {
+        return Ok(builder.send().await?);
+    };
+    let request = builder.build()?;
+    match timeout {
+        Some(t) => match tokio::time::timeout(t, transport.send(request)).await {
+            Ok(response) => response,
+            Err(_) => Err(ProtocolError::Timeout),
+        },
+        None => transport.send(request).await,
+    }
+}
